@@ -66,6 +66,7 @@ type FuncContract struct {
 	Frozen   []string
 	Inline   bool
 	PerReturn bool
+	NoReturn bool   // the function never returns normally (ends the process): no exit cover is expected
 	Holds    string // "s.mu": the function is only called with this mutex held (…Locked helpers)
 }
 
@@ -529,6 +530,8 @@ func (db *ContractDB) loadContractFile(path string, pkgPath string, src []byte) 
 			}
 		case "returns":
 			curF.Returns = strings.Fields(strings.ReplaceAll(rest, ",", " "))
+		case "noreturn":
+			curF.NoReturn = true
 		case "holds":
 			curF.Holds = rest
 		case "frozen":
